@@ -26,7 +26,7 @@ ASSUMPTIONS = ["out-of-envelope values are not judged (only acceptance inside th
                "value at the altitude the frame itself reports must not be inferred as BDS60",
                "T1 observes the isXX predicates of the repository itself; their soundness/completeness is what T2/T3 judge",
                "DF20 BDS 6,0 contents are generated with IAS within 10 kt of the Mach-consistent value at the frame's altitude"]
-REQUIRED = ["t0_random", "t1_df17", "t1_commb", "t1_empty", "t4_none", "t4_decided50", "t4_decided60", "t4_both", "t5_alt_le0",
+REQUIRED = ["same_payload_under_another_header_first", "t0_random", "t1_df17", "t1_commb", "t1_empty", "t4_none", "t4_decided50", "t4_decided60", "t4_both", "t5_alt_le0",
             "t5_alt_pos"] + \
            ["t2_BDS%s" % r for r in ("10", "17", "20", "30", "40", "44", "45", "50", "60")] + \
            ["t3_BDS%s" % r for r in ("10", "17", "20", "30", "40", "44", "45", "50", "60")]
@@ -277,6 +277,13 @@ def m_t2(ctx, case):
         mb, altcode = BUILD[reg](rng, df)
         hx = commb_hex(ctx, mb, df, altcode)
         mrar = reg in ("BDS44", "BDS45") or rng.random() < 0.5
+        if rng.random() < 0.5:
+            # the same MB payload seen a moment earlier under ANOTHER header (other altitude code, other DF): not judged, it only
+            # has to leave the verdict on the reply below alone
+            other = commb_hex(ctx, mb, rng.choice((20, 21)), rng.choice((0, ralt.q_code13(rng.randrange(2048)), ralt.gillham_code13(rng.randrange(0, 451) * 100))))
+            call(bds.infer, other, mrar)
+            call(IS[reg], other)
+            ctx.hit("same_payload_under_another_header_first")
         r = call(bds.infer, hx, mrar)
         q = call(IS[reg], hx)
         ctx.ev(2)
